@@ -162,7 +162,7 @@ static spif_obj_t tk_build(int i)
     }
 }
 static const char *tk_bname(int i) { return TKB[i]; }
-static const char *TKM[] = { "eval()", "set_sep(new \";\")", "set_src(new \"x;y z\")", "done()" };
+static const char *TKM[] = { "eval()", "set_sep(new \";\")", "set_src(new \"x;y z\")", "done()", "set_src(NULL)" };
 static void tk_mut(spif_obj_t o, int j)
 {
     spif_tok_t t = SPIF_TOK(o);
@@ -171,6 +171,7 @@ static void tk_mut(spif_obj_t o, int j)
     case 1: spif_tok_set_sep(t, spif_str_new_from_ptr((spif_charptr_t) ";")); break;
     case 2: spif_tok_set_src(t, spif_str_new_from_ptr((spif_charptr_t) "x;y z")); break;
     case 3: spif_tok_done(t); break;
+    case 4: spif_tok_set_src(t, (spif_str_t) NULL); break;                 /* the setter deletes the old source; an eval is then refused */
     }
 }
 static const char *tk_mname(int j) { return TKM[j]; }
@@ -281,7 +282,7 @@ static spif_obj_t ls_build(int i)
     return l;
 }
 static const char *ls_bname(int i) { return LSB[i]; }
-static const char *LSM[] = { "append(new x)", "prepend(new y)", "insert_at(new z, count+1)", "remove_at(0)+del", "reverse()", "remove(a)+del", "mutate first element in place", "to_array+free", "iterator walk+del", "remove_at(count-1)+del" };
+static const char *LSM[] = { "append(new x)", "prepend(new y)", "insert_at(new z, count+1)", "remove_at(0)+del", "reverse()", "remove(a)+del", "mutate first element in place", "to_array+free", "iterator walk+del", "remove_at(count-1)+del", "remove_at(count-1)+del, then append(new w)" };
 static void ls_mut(spif_obj_t l, int j)
 {
     spif_obj_t r, p;
@@ -296,6 +297,7 @@ static void ls_mut(spif_obj_t l, int j)
     case 7: { spif_obj_t *a = SPIF_LIST_TO_ARRAY(l); if (a) FREE(a); break; }
     case 8: { spif_iterator_t it = SPIF_LIST_ITERATOR(l); int g = 0; while (it && SPIF_ITERATOR_HAS_NEXT(it) && g++ < 64) (void) SPIF_ITERATOR_NEXT(it); if (it) SPIF_ITERATOR_DEL(it); break; }
     case 9: if (SPIF_LIST_COUNT(l)) { r = SPIF_LIST_REMOVE_AT(l, (spif_listidx_t) SPIF_LIST_COUNT(l) - 1); if (r) SPIF_OBJ_DEL(r); } break;
+    case 10: if (SPIF_LIST_COUNT(l)) { r = SPIF_LIST_REMOVE_AT(l, (spif_listidx_t) SPIF_LIST_COUNT(l) - 1); if (r) SPIF_OBJ_DEL(r); } SPIF_LIST_APPEND(l, S_("w")); break;
     }
 }
 static const char *ls_mname(int j) { return LSM[j]; }
@@ -318,7 +320,7 @@ static spif_obj_t vc_build(int i)
     return v;
 }
 static const char *vc_bname(int i) { return VCB[i]; }
-static const char *VCM[] = { "insert(new c)", "insert(new z)", "remove(b)+del", "remove(absent)+del", "to_array+free", "iterator walk+del" };
+static const char *VCM[] = { "insert(new c)", "insert(new z)", "remove(b)+del", "remove(absent)+del", "to_array+free", "iterator walk+del", "remove(greatest)+del, then insert(new zz)" };
 static void vc_mut(spif_obj_t v, int j)
 {
     spif_obj_t p, r;
@@ -329,6 +331,9 @@ static void vc_mut(spif_obj_t v, int j)
     case 3: p = S_("q"); r = SPIF_VECTOR_REMOVE(v, p); SPIF_OBJ_DEL(p); if (r) SPIF_OBJ_DEL(r); break;
     case 4: { spif_obj_t *a = SPIF_VECTOR_TO_ARRAY(v); if (a) FREE(a); break; }
     case 5: { spif_iterator_t it = SPIF_VECTOR_ITERATOR(v); int g = 0; while (it && SPIF_ITERATOR_HAS_NEXT(it) && g++ < 64) (void) SPIF_ITERATOR_NEXT(it); if (it) SPIF_ITERATOR_DEL(it); break; }
+    case 6: { int c = (int) SPIF_VECTOR_COUNT(v); spif_obj_t *a = c ? SPIF_VECTOR_TO_ARRAY(v) : NULL;
+              if (a) { p = SPIF_OBJ_DUP(a[c - 1]); FREE(a); r = SPIF_VECTOR_REMOVE(v, p); SPIF_OBJ_DEL(p); if (r) SPIF_OBJ_DEL(r); }
+              SPIF_VECTOR_INSERT(v, S_("zz")); break; }
     }
 }
 static const char *vc_mname(int j) { return VCM[j]; }
@@ -354,7 +359,7 @@ static spif_obj_t mp_build(int i)
 }
 static const char *mp_bname(int i) { return MPB[i]; }
 static const char *MPM[] = { "set(a,9)", "set(z,1)", "remove(a)+del", "remove(absent)", "get_keys+del", "get_values+del", "get_pairs+del", "mutate value of a in place", "iterator walk+del",
-                             "set(a, the map's own value object of a)", "set(the map's own first pair, NULL)", "set(new key n, NULL) (array family: refused)" };
+                             "set(a, the map's own value object of a)", "set(the map's own first pair, NULL)", "set(new key nq, NULL) (array family: refused)", "remove(greatest key)+del, then set(zz,1)", "set(caller-owned pair (n,1), NULL), then delete the caller's pair" };
 static void mp_mut(spif_obj_t m, int j)
 {
     spif_obj_t K, r; spif_list_t l;
@@ -370,7 +375,13 @@ static void mp_mut(spif_obj_t m, int j)
     case 8: { spif_iterator_t it = SPIF_MAP_ITERATOR(m); int g = 0; while (it && SPIF_ITERATOR_HAS_NEXT(it) && g++ < 64) (void) SPIF_ITERATOR_NEXT(it); if (it) SPIF_ITERATOR_DEL(it); break; }
     case 9: K = S_("a"); r = SPIF_MAP_GET(m, K); if (r) SPIF_MAP_SET(m, K, r); SPIF_OBJ_DEL(K); break;          /* the map copies what it is given, so its own value object is a legal argument */
     case 10: { spif_iterator_t it = SPIF_MAP_ITERATOR(m); spif_obj_t p = (it && SPIF_ITERATOR_HAS_NEXT(it)) ? SPIF_ITERATOR_NEXT(it) : NULL; if (it) SPIF_ITERATOR_DEL(it); if (p) SPIF_MAP_SET(m, p, (spif_obj_t) NULL); break; }
-    case 11: if (g_family == 0 && DEBUG_LEVEL < 1) { K = S_("n"); SPIF_MAP_SET(m, K, (spif_obj_t) NULL); SPIF_OBJ_DEL(K); } break;       /* the list families store the NULL pair; only array refuses it */
+    case 12: { spif_list_t ks = SPIF_MAP_GET_KEYS(m, (spif_list_t) NULL); int c = ks ? (int) SPIF_LIST_COUNT(ks) : 0;
+               if (c) { K = SPIF_OBJ_DUP(SPIF_LIST_GET(ks, c - 1)); r = SPIF_MAP_REMOVE(m, K); SPIF_OBJ_DEL(K); if (r) SPIF_OBJ_DEL(r); }
+               if (ks) SPIF_LIST_DEL(ks);
+               mset(m, "zz", "1"); break; }
+    case 13: { spif_obj_t k = S_("n"), v = S_("1"); spif_objpair_t pr = spif_objpair_new_from_both(k, v); SPIF_OBJ_DEL(k); SPIF_OBJ_DEL(v);      /* the map copies a ready-made pair like anything else */
+               if (pr) { SPIF_MAP_SET(m, SPIF_OBJ(pr), (spif_obj_t) NULL); spif_str_append_char(SPIF_STR(pr->value), '!'); spif_objpair_del(pr); } break; }
+    case 11: if (g_family == 0 && DEBUG_LEVEL < 1) { K = S_("nq"); SPIF_MAP_SET(m, K, (spif_obj_t) NULL); SPIF_OBJ_DEL(K); } break;       /* the list families store the NULL pair; only array refuses it */
     }
 }
 static const char *mp_mname(int j) { return MPM[j]; }
